@@ -42,23 +42,31 @@ CHECKS["C18"] = dict(
     design="5.C18")
 
 RTB = TB + "the verif hook module of sycamore-reactive; slotmap / RefCell / Box<dyn Any> are modelled (fresh ids, explicit state passing), not verified."
-for _pid, _sec, _what in [
-    ("C01", "5.C01", "after every top-level write/batch every live pure tracked-only computation holds what its function yields from the current values (from-scratch re-evaluation)"),
-    ("C02", "5.C02", "per propagation: each computation runs at most once, reads only settled derived values, and re-runs only if one of its previous subscriptions fired"),
-    ("C03", "5.C03", "after each run the subscriptions equal the specification-level tracked reads of that run (untracked forms never subscribe) and every subscriber of a fired node re-runs"),
-    ("C04", "5.C04", "cleanups run at most once and exactly once by root disposal, live nodes = nodes reachable through ownership, no dead subscribers, nothing alive after root disposal"),
-    ("C10", "5.C10", "nothing runs and derived values stay frozen between the markers of an outermost batch; the flush runs each computation at most once and leaves a consistent state"),
-    ("C11", "5.C11", "no runtime panic under a disposal injected at every statement position of every callback/cleanup/batch body, and no corruption of later updates"),
-    ("C16", "5.C16", "every use_context returns the nearest enclosing provision according to a reference walk over the program's scope tree, duplicates panic"),
-]:
+RCOMMON = ("The fuelled big-step Gallina interpreter Reactive/Interp.v mirrors root.rs/node.rs/signals.rs/memos.rs/effects.rs/context.rs; every check run "
+           "evaluates generated scenarios both in the model (vm_compute) and through harness/reactive-driver on the real API and compares the full observation "
+           "logs and graph snapshots (values, liveness, subscription lists, dead subscribers, node counts, reachable counts) line by line; an oracle independent "
+           "of the model judges the implementation's output: ")
+PURE = (" Theorems are proved on ReactivePure (the propagation loop with pure expression callbacks: run_node_update, unlink/link, mark_dependents_dirty); "
+        "ReactivePure is tied to Reactive/Interp.v by an executable bridge evaluated on 1500 write prefixes per run, and Interp to the code by the correspondence. ")
+_R = {
+    "C01": ("proof", "5.C01", "after every top-level write/batch every live pure tracked-only computation holds what its function yields from the current values (from-scratch re-evaluation).",
+            PURE + "PARTIAL proof: C01_loop_consistent_partial / C01_loop_invariant prove, for every schedule satisfying the invariant Inv (topological, closed under dependents, all dirty nodes scheduled, symmetric edges) and every late-read-free trace, that after the loop nothing is dirty and every computation is consistent; that the depth-first pass establishes Inv is NOT proved (checked only by correspondence), and the statement without the late-read hypothesis is refuted by C01_late_read_refuted (known finding F1)."),
+    "C02": ("proof", "5.C02", "per propagation: each computation runs at most once, reads only settled derived values, and re-runs only if one of its previous subscriptions fired.",
+            PURE + "PARTIAL proof: one trace entry per scheduled node and NoDup schedule (at most one run), a node runs only if dirty, one-step preservation of the invariant (C02_step); 'reads are settled' follows from C01's cons clause under the late-read hypothesis; the fired-set characterisation is judged by the oracle only."),
+    "C03": ("proof", "5.C03", "after each run the subscriptions equal the specification-level tracked reads of that run (untracked forms never subscribe) and every subscriber of a fired node re-runs.",
+            PURE + "Proved: C03_run_node_spec (after a run the dependency list is exactly the tracked reads of that evaluation, old links removed, new links added, nobody else's change), untracked reads never enter it, symmetric edges through a whole propagation. The untracked *forms* (untrack, on, component, cleanup) exist only in Interp and are covered by correspondence + oracle, not by a theorem."),
+    "C16": ("proof", "5.C16", "every use_context returns the nearest enclosing provision according to a reference walk over the program's scope tree, duplicates panic.",
+            " Proved on Reactive/Interp.v itself: C16_use_context_nearest (whenever the walk answers it answers with the nearest provision on the ownership chain and changes nothing), functionality of 'nearest', totality when parents are older than children, shadowing, duplicate provision panics, a fresh provision is visible, dispose_children (hence every re-run) clears what the node provided."),
+    "C04": ("other", "5.C04", "cleanups run at most once and exactly once by root disposal, live nodes = nodes reachable through ownership, no dead subscribers, nothing alive after root disposal.", " No theorem yet: claimed level `other`."),
+    "C10": ("other", "5.C10", "nothing runs and derived values stay frozen between the markers of an outermost batch; the flush runs each computation at most once and leaves a consistent state.", " No theorem yet: claimed level `other`."),
+    "C11": ("other", "5.C11", "no runtime panic under a disposal injected at every statement position of every callback/cleanup/batch body, and no corruption of later updates.", " No theorem yet: claimed level `other`."),
+}
+for _pid, (_cat, _sec, _what, _extra) in _R.items():
     CHECKS[_pid] = dict(
-        category="other",
-        technique="executable Gallina model of the reactive runtime (Reactive/Interp.v) + differential correspondence against the real runtime + property oracle; theorems in progress",
-        text=("The fuelled big-step Gallina interpreter Reactive/Interp.v mirrors root.rs/node.rs/signals.rs/memos.rs/effects.rs/context.rs; every check run "
-              "evaluates generated scenarios both in the model (vm_compute) and through harness/reactive-driver on the real API and compares the full observation "
-              "logs and graph snapshots (values, liveness, subscription lists, dead subscribers, node counts) line by line; an oracle independent of the model judges "
-              "the implementation's output: " + _what + ". Claimed level is `other` until the Coq theorems for this property are proved."),
-        note=RTB, design=_sec)
+        category=_cat,
+        technique=("Coq proof over hand-written executable Gallina models + differential correspondence against the real runtime + property oracle" if _cat == "proof"
+                   else "executable Gallina model of the reactive runtime + differential correspondence against the real runtime + property oracle; theorems in progress"),
+        text=RCOMMON + _what + _extra, note=RTB, design=_sec)
 
 NOT_YET = {}
 
